@@ -39,9 +39,9 @@ type StructV struct{ f []Value }
 
 type ArrayV struct {
 	e        []Value
-	base     *Term // SMT array this buffer was created from (or nil)
-	baseOff  int
-	pristine bool // e[k] == select(base, baseOff+k) for all k
+	// fn, when set, gives element i as a closed-form term (e[k] == fn(k) for
+	// all k): symbolic-index reads use it instead of an ite chain over e.
+	fn func(i *Term) *Term
 }
 
 type FuncV struct {
@@ -292,12 +292,8 @@ func (ex *Exec) loadPath(v Value, path []PE) Value {
 
 func (ex *Exec) symRead(a *ArrayV, idx *Term, rest []PE) Value {
 	tt := ex.tt
-	if a.pristine && len(rest) == 0 {
-		i32 := tt.Extract(idx, 31, 0)
-		if a.baseOff != 0 {
-			i32 = tt.Add(i32, tt.BV(uint64(a.baseOff), 32))
-		}
-		return tt.Select(a.base, i32)
+	if a.fn != nil && len(rest) == 0 {
+		return a.fn(idx)
 	}
 	if len(a.e) == 0 {
 		unsup("symbolic read of empty array")
